@@ -22,8 +22,9 @@ type Config struct {
 	Primary, Alt dtls.CipherSuiteID
 	PSK          bool
 	EMSOff       bool
-	CID          int // 0: no connection IDs; n: both sides use counting n-byte generators
-	MTU          int // 0: default; n: both sides fragment their flights at n bytes (flights span several datagrams)
+	CID          int  // 0: no connection IDs; n: both sides use counting n-byte generators
+	MTU          int  // 0: default; n: both sides fragment their flights at n bytes (flights span several datagrams)
+	NoHV         bool // the server skips the cookie exchange (WithInsecureSkipVerifyHello)
 }
 
 var pskKey = []byte{0xC1, 0x4C, 0x14, 0x77, 0x01}
@@ -57,6 +58,9 @@ func Configs() []Config {
 				}
 				out = append(out, Config{Name: n, Primary: f.p, Alt: f.a, PSK: f.psk, EMSOff: emsOff, CID: cid})
 				out = append(out, Config{Name: n + "-mtu200", Primary: f.p, Alt: f.a, PSK: f.psk, EMSOff: emsOff, CID: cid, MTU: 200})
+				if !emsOff && cid == 0 {
+					out = append(out, Config{Name: n + "-nohv", Primary: f.p, Alt: f.a, PSK: f.psk, EMSOff: emsOff, CID: cid, NoHV: true})
+				}
 			}
 		}
 	}
@@ -257,6 +261,7 @@ func (h *Hist) cfgs() (world.Cfg, world.Cfg) {
 		c.EMS, s.EMS = 2, 2
 	}
 	c.MTU, s.MTU = h.Cfg.MTU, h.Cfg.MTU
+	s.SkipHelloVerify = h.Cfg.NoHV
 	if h.Cfg.CID > 0 {
 		c.Extra = []dtls.Option{dtls.WithConnectionIDGenerator(h.CGen.next)}
 		s.Extra = []dtls.Option{dtls.WithConnectionIDGenerator(h.SGen.next)}
